@@ -37,6 +37,14 @@ var c10Entries = map[string]func(b []byte, p int) interface{}{
 	"ParsePGClass":        func(b []byte, p int) interface{} { return c10r(pgdump.ParsePGClass(b)) },
 	"ParsePGAttribute":    func(b []byte, p int) interface{} { return c10r(pgdump.ParsePGAttribute(b, []int{0, 12, 15, 16}[p%4])) },
 	"ParsePGAuthID":       func(b []byte, p int) interface{} { return c10r(pgdump.ParsePGAuthID(b)) },
+	// dropped.go: the pg_attribute readers that keep dropped columns, and the schema they rebuild
+	"parseDroppedColumns": func(b []byte, p int) interface{} {
+		return c10r(pgdump.VerifParseDroppedColumns(b, map[uint32]string{uint32(p): "t", 1259: "pg_class"}))
+	},
+	"parseAllAttributes": func(b []byte, p int) interface{} {
+		a := pgdump.VerifParseAllAttributes(b, uint32(p))
+		return c10r(a, pgdump.VerifBuildColumnsWithDropped(a))
+	},
 	"ParseTOASTPointer":   func(b []byte, p int) interface{} { return c10r(pgdump.ParseTOASTPointer(b)) },
 	"IsTOASTPointer":      func(b []byte, p int) interface{} { return c10r(pgdump.IsTOASTPointer(b)) },
 	"ReadTOASTTable":      func(b []byte, p int) interface{} { return c10r(pgdump.ReadTOASTTable(b)) },
